@@ -400,6 +400,45 @@ fn s_peek_internal_q() {
     }
     kani::cover!(any_due && d == Duration::ZERO, "a timer expires right now");
 }
+/// two pending actions on ONE side (the earliest must win whatever the machine order)
+#[kani::proof]
+#[kani::unwind(3)]
+fn s_peek_action_q2() {
+    let now = any_instant();
+    let mk = |mi: usize| -> Option<ScheduledAction> {
+        if kani::any() {
+            None
+        } else {
+            Some(ScheduledAction {
+                action: TriggerAction::SendPadding { timeout: Duration::ZERO, bypass: false, replace: false, machine: MachineId::from_raw(mi) },
+                time: any_instant(),
+            })
+        }
+    };
+    let sc = [mk(0), mk(1)];
+    let ss: [Option<ScheduledAction>; 0] = [];
+    let d = peek_scheduled_action(&sc, &ss, now);
+    let mut any_due = false;
+    let mut hit = false;
+    let mut i = 0;
+    while i < 2 {
+        if let Some(a) = &sc[i] {
+            if a.time >= now {
+                any_due = true;
+                let w = a.time.duration_since(now);
+                assert!(d <= w, "C17: an action that is not superseded fires when due, before simulated time moves past it (whichever machine it belongs to)");
+                hit |= d == w;
+            }
+        }
+        i += 1;
+    }
+    if any_due {
+        assert!(hit, "C17: the next action time is the due time of a pending action");
+    } else {
+        assert!(d == Duration::MAX, "C17: without a pending action nothing is due");
+    }
+    kani::cover!(any_due && sc[0].is_some() && sc[1].is_some() && d > Duration::ZERO, "two pending actions, the earlier one later than now");
+}
 #[kani::proof]
 #[kani::unwind(3)]
 fn s_peek_action_q() {
